@@ -720,4 +720,10 @@ theorem exact_run (s : St) (sched : List Label) (hw : ∀ l ∈ sched, l.wf = tr
     exact ih (step s l) (fun l' hl' => hw l' (List.mem_cons_of_mem _ hl')) (inv_step s l (hw l (List.mem_cons_self)) h)
       (exact_step s l (hw l (List.mem_cons_self)) h e)
 
+/-- a schedule used by the non-vacuity examples of Props/C18: two streams, an initial window of 0, shrinking and
+growing SETTINGS, a larger max frame size -/
+def demoSchedule : List Label :=
+  [.setInit 0, .openStream 70000, .send 0, .wuStream 0 20000, .send 0, .send 0, .setMaxFrame 32768, .setInit 30000,
+   .openStream 10, .send 1, .send 0, .send 0, .wuStream 0 20000, .send 0, .send 0, .wuConn 100000, .send 0, .send 0]
+
 end MosnVerif.Lemmas.Flow
